@@ -86,6 +86,9 @@ def o_comb(kind: str, seq: str, npos: int, glob: bool, none_size: bool, size: in
             return _fail(why="wrapper result does not parse to the expected annotation", text=t)
     if D.dump(a) != before:
         return _fail(why="the expanded peptide object is no longer the peptide it was", kind=kind, diff=D.diff(D.dump(a), before))
+    if none_size and getattr(CB, kind)(a.serialize(), None) != texts:
+        # None means n, the number of residues - not the length of whatever text the caller handed over
+        return _fail(why="wrapper: string input with size None gives other results than the annotation object", kind=kind)
     if not extra:
         return True
     # (separate, smaller conditions) string input; a second expansion of the same object, and one of another kind
